@@ -977,6 +977,8 @@ type c03scn struct {
 	noPerm   bool
 	quickN   int // quick tier: at most that many batches (0: the common bound, -1: not in the quick tier); the thorough tier has them all
 	maxN     int // both tiers: at most that many batches (0: the common bound)
+	moreK    int // quick tier: that many more records than the common bound (two-output combinators need 3 records
+	// for one side to hold a full batch while the other ends on a partial one)
 }
 
 func c03scenarios(thorough bool) []c03scn {
@@ -998,10 +1000,10 @@ func c03scenarios(thorough bool) []c03scn {
 		{name: "concat3", second: true},
 		{name: "concat-sort", second: true},
 		{name: "pool", second: true},
-		{name: "divideon", sizes: []int{1, 2}},
+		{name: "divideon", sizes: []int{1, 2}, moreK: 1},
 		{name: "filteron", sizes: []int{2}, workers: w12},
 		{name: "filterand", sizes: []int{2}, workers: w12, quickN: 2}, // same goroutine structure as filteron, used by no command
-		{name: "distribute", sizes: []int{1, 2}},
+		{name: "distribute", sizes: []int{1, 2}, moreK: 1},
 		{name: "pairto", second: true},
 		// PairedWith is one goroutine behind PairTo (whose own scenario has all partitions): 3-batch streams in the thorough tier only
 		{name: "pairedwith", second: true, quickN: 2},
@@ -1041,7 +1043,11 @@ func c03params(thorough bool) []c03param {
 		if szs == nil {
 			szs = []int{0}
 		}
-		for k := 0; k <= maxK; k++ {
+		scMaxK := maxK
+		if !thorough {
+			scMaxK += sc.moreK
+		}
+		for k := 0; k <= scMaxK; k++ {
 			n0 := 1
 			if k == 0 && !sc.noPerm {
 				n0 = 0 // a stream without any batch
